@@ -26,9 +26,10 @@ def main(tier, seed):
     from . import hlrange
     hlrange.part(chk, tier, jobs)
     chk.assumptions += vfsrun.ASSUMPTIONS + [
+        'part d: the tagging closure of highlight() runs under-constrained on one token: a tag must follow from classify_node on that token (Function / function-typed Local / Variant) or from the token being a variant declaration name, and such tokens must be tagged; that classify_node and Local::ty themselves are right is C05/C09 territory; a 10-identifier fixture is compared through the public API',
         'part c: highlight() runs on its real MIR over a chain of <= 3 (thorough 4) tokens with symbolic contiguous ranges (token length 1..3), a symbolic requested range, and a havoc\'d tagging closure; obligations: reported ranges are token ranges starting before the exclusive end of the request and not before the token containing its start, strictly increasing, and tagged tokens in the window are reported; the rowan token navigation (first_token / token_at_offset.right_biased / next_token / text_range) is modelled; every byte range of a fixture is replayed through ide::Analysis::syntax_highlight',
         'kernel claim: the highlight list is an arbitrary list of non-empty, increasing, non-overlapping single-line ranges on char boundaries with arbitrary tags '
-        '(what ide::highlight produces for identifier tokens); WHICH identifiers are highlighted and how they are tagged needs the salsa database and is outside the claim',
+        '(what ide::highlight produces for identifier tokens); how classify_node resolves an identifier needs the salsa database and is outside the claim',
         'token-type indices are decoded with the legend the server advertises (def_index! table in semantic_tokens.rs)']
     chk.trusted += vfsrun.TRUSTED
     return chk.finish()
@@ -36,11 +37,11 @@ def main(tier, seed):
 
 def replay(path):
     d = json.load(open(path))
-    if d.get('site') == 'highlight-range':
+    if d.get('site') in ('highlight-range', 'highlight-tags'):
         from mirsym import native
         from . import hlrange
         o = native.Oracle(native.build('oracle-ide'))
-        print(json.dumps(hlrange.native_scan(o), indent=1)); o.close()
+        print(json.dumps(hlrange.native_scan(o) if d['site'] == 'highlight-range' else {'tagged': hlrange.native_tags(o)[0], 'expected': hlrange.TAG_EXPECT}, indent=1)); o.close()
         return 0
     chk = Check('C19-replay', 'quick', 0)
     oracle = vfsrun.setup(chk)
